@@ -286,7 +286,10 @@ class StackPartition(Concat):
         for df in self._frames:
             try:
                 check_meta(df._meta, self._meta)
-                match = True
+                # check_meta does not look at the name of a series
+                match = not is_series_like(self._meta) or (
+                    df._meta.name == self._meta.name
+                )
             except (ValueError, TypeError):
                 match = False
 
